@@ -4,7 +4,7 @@ from tools.lv import hexs, unhex
 
 LEVEL = "proof"
 CORRESPONDENCE = ("Model/Mailbox.lean (Display of Mailbox / Mailboxes), Model/Peg.lean (the chumsky grammar under PEG semantics) + Model/Address.lean, "
-                  "Model/Date.lean (httpdate's civil-date arithmetic and rendering), Model/Headers.lean vs Mailbox / Mailboxes Display and FromStr "
+                  "Model/Date.lean (httpdate's civil-date arithmetic and rendering), Model/TypedHdr.lean (MimeVersion / ContentTransferEncoding display and parse), Model/Headers.lean vs Mailbox / Mailboxes Display and FromStr "
                   "(grammar observed through a hook), serde, Headers::set/get of To, Date, Content-Disposition, MIME-Version, "
                   "Content-Transfer-Encoding, Content-Type and text headers")
 RULE = ("mbox: 43 display names (empty, blanks, specials, quotes, backslashes, controls incl. NUL/CR/LF, non-ASCII, NBSP / U+2028, long) x 20 "
@@ -69,6 +69,28 @@ def gen(tier, rng):
                 cases.append(f"typed\tmimever\t{a}\t{b}")
     for e in "7qb8n":
         cases.append(f"typed\tcte\t{e}\t-")
+    # texts offered to `MimeVersion::parse` and `ContentTransferEncoding::parse` (the functions behind `Headers::get`), compared with
+    # Model/TypedHdr.lean: the edges of `u8::from_str` (sign, leading zeros, 255 / 256, empty pieces, blanks, further pieces,
+    # non-ASCII digits) and every letter-case / padding variant of the five spellings
+    mv = ["1.0", "+1.0", "1.+0", "-1.0", "01.000", "255.255", "256.0", "0.256", "1", "1.", ".1", ".", "", "1.0.7", "1.0.", "1..0", " 1.0", "1.0 ", "1 .0", "1. 0",
+          "1,0", "١.0", "1.0x", "0x1.0", "1e0.0", "999999999999999999999.0", "00000000000000000000001.0", "+.0", "+", "1.+", "++1.0", "1.0\r\n", "1\t.0", "２.0"]
+    for a in (0, 7, 25, 26, 99, 100, 199, 249, 250, 255, 256, 257, 260, 300, 1000):
+        for b in (0, 9, 255, 256):
+            mv.append(f"{a}.{b}")
+    for _ in range({"quick": 300, "search": 1000, "thorough": 6000}[tier]):
+        mv.append("".join(rng.choice("0123456789..+- 25") for _ in range(rng.randint(0, 9))))
+    for t in mv:
+        cases.append(f"tparse\tmimever\t{hexs(t) if t else '-'}")
+    ct5 = ["7bit", "quoted-printable", "base64", "8bit", "binary"]
+    ctv = ["", "7BIT", "Base64", "BASE64", " base64", "base64 ", "base64\r\n", "quoted_printable", "quotedprintable", "7-bit", "8bits", "binary;", "x-token", "bāse64"]
+    for t in ct5:
+        ctv += [t, t.upper(), t.capitalize(), t + " ", " " + t, t[:-1], t + "x", t.replace("i", "I", 1)]
+    for _ in range({"quick": 100, "search": 300, "thorough": 2000}[tier]):
+        t = rng.choice(ct5)
+        i = rng.randrange(len(t) + 1)
+        ctv.append(t[:i] + rng.choice(["", "", " ", "-", "B", "7", "é"]) + t[i + rng.choice([0, 1]):])
+    for t in ctv:
+        cases.append(f"tparse\tcte\t{hexs(t) if t else '-'}")
     for ct in ["text/plain", "text/plain; charset=utf-8", "multipart/mixed; boundary=\"a b\"", "application/octet-stream", "TEXT/HTML; Charset=\"UTF-8\"",
                "image/png; name=\"x.png\"", "text/plain; format=flowed; delsp=yes", "not a type", "text/", "a/b; c=d; e=\"f g\""]:
         cases.append(f"typed\tctype\t{hexs(ct)}\t-")
